@@ -28,6 +28,49 @@ def _residual_from_forward(cls, varname, argname, dname):
     raise Unmodelled("contract anchor not found: %s = ... in %s.forward" % (varname, cls.__name__))
 
 
+class _StopAtLoop(Exception):
+    pass
+
+
+def _target_from_forward(ctx, which, cls, varname, constants):
+    """The value the secant loop of `forward` solves for, as a function of forward's first input: the real prologue of forward
+    (everything before `for i in range(1, 6)`) is executed on a symbolic input and the loop-entry value of the variable that
+    the secant formula compares the residual with (`(X - hsp1)`) is captured.  One entry per prologue path."""
+    tree = ast.parse(textwrap.dedent(inspect.getsource(cls.forward)))
+    target_name = None
+    for n in ast.walk(tree):
+        if isinstance(n, ast.BinOp) and isinstance(n.op, ast.Sub) and isinstance(n.right, ast.Name) and n.right.id == varname and isinstance(n.left, ast.Name):
+            target_name = n.left.id
+    if target_name is None:
+        raise Unmodelled("contract anchor not found: secant target `X - %s` in %s.forward" % (varname, which))
+    env = {}
+
+    class Capture(W.LoopContract):
+        def enter(self, L, it):
+            env["L"] = L
+            raise _StopAtLoop()
+
+    fwd = W.recompile("%s:%s.forward" % (CP, which), loops={0: ("range(1, 6)", Capture())})
+    h_in, D = real("h_in"), real("D")
+
+    def thunk():
+        assume(D > 0)
+        c = Obj(save_for_backward=lambda *a: None)
+        try:
+            fwd(c, st.tensor([h_in]), st.tensor([D]))
+        except _StopAtLoop:
+            pass
+        return env["L"][target_name].a[0]
+
+    ex = ctx.explore(thunk, constants=constants, name=which + ".forward[prologue]")
+    out = []
+    for p in ex.paths:
+        if p.raised is not None:
+            raise Unmodelled("prologue of %s.forward raised %r %s" % (which, p.raised, p.notes.get("traceback", "")[-400:]))
+        out.append((p.pc, p.value))
+    return target_name, out
+
+
 def replay_backward(which):
     def rp(model):
         import torch
@@ -35,17 +78,26 @@ def replay_backward(which):
 
         torch.set_default_dtype(torch.float64)
         fn = getattr(C, which).apply
-        h = torch.tensor([3.0 if which.endswith("1") else 0.9], requires_grad=True)
-        D = torch.tensor([0.8], requires_grad=True)
-        rho = fn(h, D)
-        g_h, g_D = torch.autograd.grad(rho.sum(), (h, D))
-        d = 1e-6
-        with torch.no_grad():
-            fd_h = float((fn(h + d, D) - fn(h - d, D)) / (2 * d))
-            fd_D = float((fn(h, D + d) - fn(h, D - d)) / (2 * d))
-        bad = abs(float(g_h) - fd_h) > 1e-6 * max(1, abs(fd_h)) or abs(float(g_D) - fd_D) > 1e-6 * max(1, abs(fd_D))
-        return {"reproduced": bool(bad), "function": which, "autograd_d_rho/d_h": float(g_h), "central_difference": fd_h, "product (1.0 = reciprocal)": float(g_h) * fd_h,
-                "autograd_d_rho/d_D": float(g_D), "central_difference_D": fd_D}
+        rows, bad = [], False
+        hs = [3.0, 0.05] if which.endswith("1") else [0.9, 0.05]
+        if "h_in" in (model or {}):
+            hs.insert(0, model_float(model, "h_in"))
+        for h0 in hs:
+            h = torch.tensor([h0], requires_grad=True)
+            D = torch.tensor([0.8], requires_grad=True)
+            rho = fn(h, D)
+            g_h, g_D = torch.autograd.grad(rho.sum(), (h, D))
+            d = 1e-6
+            with torch.no_grad():
+                fd_h = float((fn(h + d, D) - fn(h - d, D)) / (2 * d))
+                fd_D = float((fn(h, D + d) - fn(h, D - d)) / (2 * d))
+            if not all(abs(v) < 1e300 for v in (float(g_h), fd_h, float(g_D), fd_D)):
+                continue
+            b = abs(float(g_h) - fd_h) > 1e-5 * max(1, abs(fd_h)) or abs(float(g_D) - fd_D) > 1e-5 * max(1, abs(fd_D))
+            bad = bad or b
+            rows.append({"h_eV": h0, "D": 0.8, "autograd_d_rho/d_h": float(g_h), "central_difference": fd_h, "product (1.0 = reciprocal)": float(g_h) * fd_h,
+                         "autograd_d_rho/d_D": float(g_D), "central_difference_D": fd_D, "differs": bool(b)})
+        return {"reproduced": bool(bad), "function": which, "rows": rows}
     return rp
 
 
@@ -62,9 +114,10 @@ def task_additive_term_backward(ctx):
         resid, src = _residual_from_forward(cls, var, arg, "D1" if which.endswith("1") else "D2")
         rho, D, g = real("rho"), real("D"), real("g")
         f = resid(st.tensor([1 / (2 * rho)]), st.tensor([D])).a[0]  # residual in atomic units as a function of rho = 1/(2d)
-        # defining equation: ev * f(rho, D) - h_ev = 0   =>   d rho/d h_ev = 1/(ev f_rho),  d rho/d D = -f_D/f_rho
+        # defining equation: f(rho, D) = T(h_in), T = the value forward's prologue hands to the secant loop (h_in/ev on this tree)
+        #   =>   d rho/d h_in = T'(h_in)/f_rho,  d rho/d D = -f_D/f_rho
         f_rho, f_D = Sym(E.diff(f.n, rho.n)), Sym(E.diff(f.n, D.n))
-        want_h = g / (ev * f_rho)
+        tname, targets = _target_from_forward(ctx, which, cls, var, {"ev": ev})
         want_D = -g * f_D / f_rho
 
         def thunk():
@@ -77,8 +130,11 @@ def task_additive_term_backward(ctx):
             continue
         gh, gD = ex.paths[0].value
         env = {"_positive": True}
-        ctx.prove_eq(which + ".grad_h = g * d(rho)/d(h) (implicit function theorem)", gh.a[0], want_h, replay=replay_backward(which), numeric_env=env,
-                     classify=lambda m, r: "reciprocal-derivative")
+        for k, (pc_t, T) in enumerate(targets):
+            dT = Sym(E.diff(E.node_of(T), real("h_in").n))
+            ctx.prove_eq(which + ".grad_h = g * d(rho)/d(h) (implicit function theorem)@prologue-path%d" % k, gh.a[0], g * dT / f_rho, pc=list(pc_t) + [ev > 0],
+                         replay=replay_backward(which), numeric_env=env, classify=lambda m, r: "backward-is-not-the-derivative-of-forward")
+        ctx.notes.append("%s: secant target `%s` at loop entry on %d prologue path(s): %s" % (which, tname, len(targets), "; ".join(E.to_str(E.node_of(T), 80) for _, T in targets)))
         ctx.prove_eq(which + ".grad_D = g * d(rho)/d(D) (implicit function theorem)", gD.a[0], want_D, replay=replay_backward(which), numeric_env=env,
                      classify=lambda m, r: "reciprocal-derivative")
         ctx.notes.append("%s residual: %s" % (which, src))
